@@ -115,6 +115,9 @@ func WithDeadline(parent Context, d time.Time) (Context, CancelFunc) {
 		d = cur
 	}
 	c.deadline, c.hasDL = d, true
+	if c.err == nil && !d.After(vtime.Now()) {
+		c.cancel(DeadlineExceeded, false) // deadline already passed: cancelled at once, as in the real package
+	}
 	if c.err == nil && vm.Active() {
 		dur := d.Sub(vtime.Now())
 		c.timer = vm.AddTimer(int64(dur), 0, func() { c.cancel(DeadlineExceeded, true) })
